@@ -41,6 +41,7 @@ inductive Prim where
   | vmCellSlice           -- tlb.VmCellSlice
   | payloadV1toV4         -- wallet.PayloadV1toV4
   | w5Actions             -- wallet.W5Actions
+  | addrWc                -- tlb.AddressWithWorkchain (dictionary key: workchain as int32, address bits256)
   deriving Repr, DecidableEq, Inhabited
 
 mutual
@@ -61,7 +62,16 @@ inductive Ty where
   | refT (t : Ty)                    -- tlb.Ref[T]
   | prim (p : Prim)
   | vmStack (elem : Ty)              -- tlb.VmStack over its element type (tlb.VmStackValue)
-  | dictE (id : String)              -- tlb.HashmapE[K,V] restricted to the EMPTY dictionary (C05 owns the rest)
+  | dictE (k t : Ty)                 -- tlb.HashmapE[K,V]: Maybe ^(Hashmap n V); the dictionary itself is C05's model
+  | dict (k t : Ty)                  -- tlb.Hashmap[K,V] written into the current cell (hm_edge; never empty); greedy
+  | chain (elem : Ty)                -- wallet.W5ExtendedActions: first element inline, every further one behind a ref
+  | highload                         -- wallet.PayloadHighload: HashmapE 16 of (mode:uint8 message:^…), keys 0..n-1
+  | dictAugE (k t x : Ty)            -- tlb.HashmapAugE[K,V,X]: decoded by C05's model; only the empty one can be written
+  | dictAug (k t x : Ty)             -- tlb.HashmapAug[K,V,X] read from the current cell; MarshalTLB: "not implemented"
+  | binTree (t : Ty)                 -- tlb.BinTree[T]: bt_leaf$0 leaf:X | bt_fork$1 left:^ right:^; decode only
+  | custom (id : String) (body aux : Ty)
+      -- a hand-written decoder with flag-dependent layout (`decodeCustom`); `body`: what the reflection codec sees
+      -- (used by the encoder unless the type has its own MarshalTLB); `aux`: a struct listing the component types
   | encErr (id : String)             -- Go MarshalTLB returns "not implemented"; decode side not modelled
   | opaque (id : String)             -- custom codec without a model
 inductive Fields where
@@ -97,6 +107,10 @@ def list : List Val → Val
   | v :: vs => .cons v (list vs)
 def ctor (name : String) (v : Val) : Val := .cons (.sym name) (.cons v .nil)
 def some (v : Val) : Val := .cons v .nil
+/-- the elements of a list-shaped value -/
+def toList : Val → List Val
+  | .cons h t => h :: toList t
+  | _ => []
 end Val
 
 /-- type environment: Go named types (by index) → descriptors. Indices instead of names keep the regenerated `wf_<T>`
